@@ -109,18 +109,25 @@ def reads_writes(run, P, classes, r_reads="C08.reads", r_writes="C08.writes"):
 def _callee_lookup(run, P, rule="C08.reads"):
     """The function of a call evaluated inside an expression comes from the
     function table, never from the variable store."""
-    f = P.func("dagrt.expression.EvaluationMapper.map_generic_call")
-    calls = [x for x in ast.walk(f.node) if isinstance(x, ast.Call) and isinstance(x.func, ast.Name)
-             and any(isinstance(a, ast.Starred) for a in x.args)]
-    if len(calls) != 1:
-        raise AnalysisError("EvaluationMapper.map_generic_call: the call of the looked-up function not found")
+    EM = P.cls("dagrt.expression.EvaluationMapper")
+    hits = [(m_, x) for _, m_ in sorted(EM.methods.items()) for x in ast.walk(m_.node)
+            if isinstance(x, ast.Call) and isinstance(x.func, ast.Name)
+            and any(isinstance(a, ast.Starred) for a in x.args)]
+    uniq = {}
+    for m_, x in hits:
+        uniq.setdefault(id(x), (m_, x))
+    hits = list(uniq.values())
+    if len(hits) != 1:
+        raise AnalysisError("EvaluationMapper: the call of the looked-up function not found")
+    f, call_ = hits[0]
+    calls = [call_]
     v = calls[0].func.id
     defs = [s_.value for s_ in ast.walk(f.node) if isinstance(s_, ast.Assign)
             and any(isinstance(t, ast.Name) and t.id == v for t in s_.targets)]
     ok = bool(defs) and all(isinstance(d, ast.Subscript) and dotted(d.value) == "self.functions"
-                            and dotted(d.slice) == f.params[1] for d in defs)
+                            for d in defs)
     run.ob(rule, f, defs[0] if defs else f.node, ok,
-           construct=f"map_generic_call: {v} = self.functions[{f.params[1]}] (found: "
+           construct=f"{f.name}: {v} = self.functions[<name of the called function>] (found: "
                      f"{[norm(d, 50) for d in defs]})",
            why="resolved like a variable, the function's name is looked up in the variable "
                "store first: the call reads a variable the statement does not declare "
@@ -791,6 +798,6 @@ def _target_positions(target, it, pos):
 
 
 def check(run, P):
-    _check_main(run, P)
+    run.do(_check_main, run, P)
     from . import generic
     generic.lints(run, P, "C08")
